@@ -7,18 +7,18 @@ ROOT = os.path.dirname(os.path.dirname(os.path.abspath(__file__)))
 BASELINE_OFF = ("cd /repo && GOFLAGS=-mod=mod GOPROXY=off GOSUMDB=off GOTOOLCHAIN=local "
                 "go test -json -vet=off -count=1 -timeout 25m ./...")
 
-# id -> (technique, level text, level note, design ref)
-CLAIMED = {
-    "C11": ("Rocq proof of model = line-feed-counting spec + differential run of the model (vm_compute) against the Go code",
-            "Theorems C11_* (coq/Props/C11.v) prove, for every list of files and every position, that the model of "
-            "FileSet.Position/File.Position (both binary searches, lazily built line table, AddFile layout) never panics "
-            "and equals the specification that counts line feeds in the CRLF-normalised content; plus round trip, "
-            "injectivity, non-overlap and unknown-position theorems. The hand-written model is tied to /repo by running "
-            "its definitions inside Coq against the implementation on enumerated and random file sets on every run.",
-            "Trusted: Coq kernel + vm_compute; the hand-written model (validated by the differential run only on the "
-            "generated cases); Go driver; positions non-negative; Go ints unbounded; decimal formatting of %d.",
-            "DESIGN.md section 6, C11"),
-}
+import importlib
+import sys
+sys.path.insert(0, os.path.join(ROOT, "lib"))
+
+# Every lib/cNN.py that defines MANIFEST = {technique, text, note, ref} is a claimed property.
+CLAIMED = {}
+for _f in sorted(os.listdir(os.path.join(ROOT, "lib"))):
+    if len(_f) == 6 and _f[0] == "c" and _f.endswith(".py") and _f[1:3].isdigit():
+        _m = importlib.import_module(_f[:-3])
+        if hasattr(_m, "MANIFEST"):
+            e = _m.MANIFEST
+            CLAIMED[_m.ID] = (e["technique"], e["text"], e["note"], e["ref"])
 
 NOT_YET = {}
 
